@@ -59,6 +59,7 @@ type Gen struct {
 	quantAsm bool
 	inQuant  int
 	specMode int
+	nonBlockingUnit bool // the unit's contract says nonblocking: calls to possibly blocking callees are obligations
 	imm      *State
 	qhyps     []*QHyp
 	qbuilding []*QHyp
@@ -66,6 +67,8 @@ type Gen struct {
 	readSeen  map[string]bool
 	named     map[Sort][]namedTerm
 	namedSeen map[string]bool
+	packedOf  map[string]string
+	sliceDataOf map[string]*SVal // opaque pointer returned by unsafe.SliceData -> the slice it came from // array term -> its packed bit-vector, where known
 	verWM     map[string]string // heap version -> allocation watermark when it was created
 	axiomSeen  map[string]bool
 	initDone   map[string]bool
@@ -83,6 +86,7 @@ type Gen struct {
 type namedTerm struct {
 	term, origin string
 	signed, ptr  bool
+	packed       string
 }
 
 // asmRec: an assumption with its position in program order. An obligation may
@@ -149,8 +153,14 @@ func (g *Gen) addNamed(v *SVal) {
 		return
 	}
 	g.namedSeen[k] = true
+	if v.Packed != "" {
+		if g.packedOf == nil {
+			g.packedOf = map[string]string{}
+		}
+		g.packedOf[v.Term] = v.Packed
+	}
 	_, sg := intInfo(v.T)
-	g.named[srt] = append(g.named[srt], namedTerm{v.Term, g.curOrigin, sg && v.K == KInt, v.K == KPtr})
+	g.named[srt] = append(g.named[srt], namedTerm{v.Term, g.curOrigin, sg && v.K == KInt, v.K == KPtr, v.Packed})
 }
 
 // logRead records an element read for hypothesis instantiation.
@@ -184,6 +194,9 @@ func (g *Gen) logRead(fam, base, off, rel, idx string) {
 func (g *Gen) instantiate(rounds int) int {
 	total := 0
 	rounds = 3
+	if v := os.Getenv("GOVC_ROUNDS"); v != "" {
+		fmt.Sscanf(v, "%d", &rounds)
+	}
 	if g.privAsms == nil {
 		g.privAsms = map[string][]asmRec{}
 	}
@@ -268,7 +281,28 @@ func (g *Gen) instantiate(rounds int) int {
 				env := qh.env.child()
 				for vi, qv := range qh.vars {
 					t := qh.types[vi]
+					if pn := packedKeyLen(t); pn > 0 {
+					parts := make([]string, 0, pn)
+					at := tup.terms[vi]
+					if g.packedOf[at] == "" && len(at) > 40 {
+						at = g.define("candarr", g.W.scalarSort(t), at)
+					}
+					for i := int64(0); i < pn; i++ {
+						parts = append(parts, sSel(at, bv64(i)))
+					}
+					pk := parts[0]
+					if pn > 1 {
+						pk = "(concat " + strings.Join(parts, " ") + ")"
+					}
+					if p := g.packedOf[tup.terms[vi]]; p != "" {
+						pk = p
+					} else {
+						pk = g.define("candkey", Sort(fmt.Sprintf("(_ BitVec %d)", 8*pn)), pk)
+					}
+					env.vars[qv.Name] = &SVal{T: t, K: KArray, Term: tup.terms[vi], Packed: pk}
+				} else {
 					env.vars[qv.Name] = scalar(t, kindOf(t), tup.terms[vi])
+				}
 				}
 				env.mode, env.pol, env.guard, env.noInst = 1, 1, qh.guard, false
 				if qh.negate {
@@ -305,7 +339,19 @@ func (g *Gen) instantiate(rounds int) int {
 			}
 		}
 		total += added
+		if os.Getenv("GOVC_DEBUG_INST") != "" {
+			fmt.Fprintf(os.Stderr, "instantiate %s round %d: %d hyps, %d instances added\n", g.Unit, r, len(hyps), added)
+			for _, qh := range hyps {
+				fmt.Fprintf(os.Stderr, "   %5d  %s\n", len(qh.done), truncStr(qh.text, 100))
+			}
+		}
 		if added == 0 {
+			break
+		}
+		// cap on query size: deeper rounds only refine a small instance set (a large one slows every
+		// back end down far more than the extra instances help; the full stage still has the
+		// quantified hypotheses themselves)
+		if total > 300 {
 			break
 		}
 	}
@@ -324,7 +370,15 @@ func (g *Gen) immState() *State {
 }
 
 func newGen(p *Program, unit string) *Gen {
-	return &Gen{W: p.W, P: p, Unit: unit, Notes: map[string]bool{}, heapSort: map[string]Sort{}, pureDefs: map[string]bool{}, kindCtr: map[string]int{}, ufDecl: map[string]bool{}}
+	g := &Gen{W: p.W, P: p, Unit: unit, Notes: map[string]bool{}, heapSort: map[string]Sort{}, pureDefs: map[string]bool{}, kindCtr: map[string]int{}, ufDecl: map[string]bool{}}
+	// units are built one at a time; large array operands of element-wise equalities get names
+	eqDefiner = func(srt Sort, term string) string {
+		if g.inQuant > 0 {
+			return term
+		}
+		return g.define("arr", srt, term)
+	}
+	return g
 }
 
 func (g *Gen) note(format string, a ...any) { g.Notes[fmt.Sprintf(format, a...)] = true }
@@ -831,7 +885,38 @@ func (g *Gen) sortOfVal(v *SVal) Sort {
 	return g.W.scalarSort(v.T)
 }
 
+// eqDefiner names a large term (set while a unit is being built; nil otherwise)
+var eqDefiner func(srt Sort, term string) string
+
 func eqVal(a, b *SVal) string {
+	// Go array equality is element-wise over the array's length (an SMT array value also has entries
+	// beyond it, which carry no meaning)
+	if a.K == KArray && b.K == KArray && a.T != nil {
+		if at, ok := a.T.Underlying().(*types.Array); ok && at.Len() <= 64 && elemBits(at.Elem()) > 0 {
+			var xs []string
+			ta, tb := a.Term, b.Term
+			if eqDefiner != nil {
+				srt := arrSort(SBV64, Sort(fmt.Sprintf("(_ BitVec %d)", elemBits(at.Elem()))))
+				if len(ta) > 60 {
+					ta = eqDefiner(srt, ta)
+				}
+				if len(tb) > 60 {
+					tb = eqDefiner(srt, tb)
+				}
+			}
+			for i := int64(0); i < at.Len(); i++ {
+				xs = append(xs, sEq(sSel(ta, bv64(i)), sSel(tb, bv64(i))))
+			}
+			return sAnd(xs...)
+		}
+	}
+	if len(a.Sub) > 0 && len(a.Sub) == len(b.Sub) && a.K == b.K && (a.K == KStruct || a.K == KTuple) {
+		var xs []string
+		for i := range a.Sub {
+			xs = append(xs, eqVal(a.Sub[i], b.Sub[i]))
+		}
+		return sAnd(xs...)
+	}
 	fa, fb := flatten(a), flatten(b)
 	if len(fa) != len(fb) {
 		panic(unsupported("equality of differently shaped values"))
@@ -1029,6 +1114,9 @@ func (g *Gen) load(st *State, p *SVal, t types.Type) *SVal {
 			for i := int64(0); i < a.Len(); i++ {
 				tm = sStore(tm, bv64(i), sSel(src, sApp("bvadd", off, bv64(i))))
 			}
+			if g.inQuant == 0 {
+				tm = g.define("arrval", g.W.scalarSort(t), tm)
+			}
 			return scalar(t, KArray, tm)
 		}
 		return scalar(t, KArray, sSel(h, p.Term))
@@ -1185,4 +1273,46 @@ func posOf(fn *ssa.Function, p token.Pos) token.Position {
 		return token.Position{}
 	}
 	return fn.Prog.Fset.Position(p)
+}
+
+// elemBits: width of an integer element type, 0 if not an integer
+func elemBits(t types.Type) int {
+	if kindOf(t) != KInt {
+		return 0
+	}
+	b, _ := intInfo(t)
+	return b
+}
+
+func truncStr(s string, n int) string {
+	if len(s) > n {
+		return s[:n]
+	}
+	return s
+}
+
+// ---------------------------------------------------------------------------
+// Ghost wall clock. time.Now() returns a time not before the clock and sets the clock to it; a call
+// that may block (anything executed by contract or havoc, unless its contract says nonblocking) lets an
+// arbitrary amount of time pass. Computation itself takes no time in this model, so "clocknow() == t"
+// says: t was read from the clock and nothing that could block has run since.
+// ---------------------------------------------------------------------------
+
+const clockSec, clockNsec = "$clock.sec", "$clock.nsec"
+
+func (g *Gen) clockOf(st *State) (string, string) {
+	return g.heapGet(st, clockSec, SBV64), g.heapGet(st, clockNsec, SBV64)
+}
+
+func timeLE(as, an, bs, bn string) string {
+	return sOr(sApp("bvslt", as, bs), sAnd(sEq(as, bs), sApp("bvsle", an, bn)))
+}
+
+// advanceClock: in state post (reached from pre) an unknown amount of time has passed.
+func (g *Gen) advanceClock(reach string, pre, post *State) {
+	os, on := g.clockOf(pre)
+	ns, nn := g.fresh("clk.sec", SBV64), g.fresh("clk.nsec", SBV64)
+	g.heapSet(post, clockSec, SBV64, ns)
+	g.heapSet(post, clockNsec, SBV64, nn)
+	g.assume(reach, timeLE(os, on, ns, nn))
 }
